@@ -17,6 +17,8 @@ Argument (each step an obligation below):
        lemma B (z3): if global2local is the inverse of local2global on non-zero multipliers and every slot's dof also sits in a non-zero slot of
                      the same element (slot cover), then the neighbour set built by _compute_color_map from global2local contains every element
                      sharing ANY slot dof with e (zero-multiplier slots included);
+     the slot-cover hypothesis of lemma B is itself proved (V-engine, all sizes) for the final loops of _compute_p1_dof_map and
+     _compute_rwg0_space_data, extracted mechanically per iteration (contracts/dofmap_blocks.py);
      and, bounded (run-time contracts on a sweep of spaces x supports x options, barycentric and localised representations included):
        the real _compute_color_map equals the greedy specification, slot cover and inverse hold, _sort_elements_by_color returns the colour
        classes, and every launch of a real assembly meets COLOURED on its actual arguments;
@@ -614,6 +616,11 @@ def main():
         if key not in listed:
             run.add("%s::contract-without-function" % key[1], "frame", lambda k=key: {"status": "error", "detail": "contract for %s.%s matches no prange function" % k})
     run.add("dense_assembler::establishes-COLOURED", "pre", ob_launch_ast)
+    # hypothesis "slot cover" of lemma B, proved per iteration on the mechanically extracted final loops of the P1 and RWG / SNC dof-map functions (all sizes)
+    from vlib import vrun as VR
+
+    for blk in ("_p1_final_block", "_rwg_final_block"):
+        VR.add_block(run, "contracts.dofmap_blocks", blk)
     run.add("lemma.greedy-step-preserves-colouring", "lemma", ob_lemma_greedy)
     for ns in (1, 3, 6):
         run.add("lemma.neighbour-set-covers-shared-dofs[ns=%d]" % ns, "lemma", ob_lemma_neighbours, ns)
